@@ -96,6 +96,24 @@ func selftest(r *evid.Run) {
 			r.Count("trace_corruptions_rejected", 2)
 		}
 	}
+	// 2c. parser traces: the calls "- a", "  - b" as the real parser answers them are accepted; with the learnt unit
+	// logged as 3 instead of 2, or the hierarchy of the second row as 3, the step is not MdLine.Parse's
+	{
+		mk := func(spaces, hier int) []any {
+			return []any{&parseEv{Op: "new", Line: []string{}, Text: []string{}},
+				&parseEv{Op: "parse", Line: []string{"HY", "SP", "a"}, Res: "ok", Hier: 1, Text: []string{"a"}, Sep: "none"},
+				&parseEv{Op: "parse", Line: []string{"SP", "SP", "HY", "SP", "b"}, Res: "ok", Hier: hier, Text: []string{"b"}, Sep: "sp", Spaces: spaces}}
+		}
+		good, ok1 := validateTraceIn(r, "TraceParser", "TraceParser.cfg", "ptrace.ndjson", mk(2, 2))
+		bad1, ok2 := validateTraceIn(r, "TraceParser", "TraceParser.cfg", "ptrace.ndjson", mk(3, 2))
+		bad2, ok3 := validateTraceIn(r, "TraceParser", "TraceParser.cfg", "ptrace.ndjson", mk(2, 3))
+		if !ok1 || !ok2 || !ok3 || len(good) != 0 || bad1[2] == "" || bad2[2] == "" {
+			fail("TraceParser: good=%v wrong-unit=%v wrong-hierarchy=%v", good, bad1, bad2)
+		} else {
+			fmt.Println("selftest: TraceParser accepts the recorded Parse calls and rejects a wrong learnt unit and a wrong hierarchy")
+			r.Count("trace_corruptions_rejected", 2)
+		}
+	}
 	// 3. pipeline traces
 	pool := workerPool(r, 2)
 	if pool == nil {
